@@ -9,7 +9,7 @@ use blsful::vsss_rs::Share;
 use blsful::*;
 use serde_json::json;
 
-pub const RULE: &str = "EXHAUSTIVE for n<=5 (quick) / n<=7 (thorough): every (t,n) with 2<=t<=n, every subset of every size of the n shares, in sorted and in one seeded shuffled order. Sampled above: corners (2,255),(128,255),(254,255),(255,255) [thorough], (2,20),(10,20),(20,20),(3,64) and seeded random pairs, subsets of size t-1,t,t+1,n. Per split (keys from E and random; split and split_with_rng): SecretKey::combine, PublicKey::from_shares, Signature::from_shares for Basic and PoP, both groups, messages from the length classes. >=t distinct shares must give the whole key / public key / byte-identical whole-key signature; <t shares must not (sizes 0,1 must be Err); each partial signature must verify against its own public-key share and against no other participant's (full i x j matrix for n<=7); the reference's own Lagrange interpolation over the share BYTES must give the same scalar / points (independent of vsss-rs). Error catalogue: [], [s], [s,s], [s,s'] with equal identifier, identifier forced to 0, Basic+PoP mixed, MessageAugmentation share signing, (t,n) in {(0,0),(1,1),(1,3),(3,2),(2,256),(256,256),(2,300),(0,5)}. History clusters (2 quick / 8 thorough per group): for one 2-of-3 split every participant's partial signature under Basic and ProofOfPossession (answer: the reference's signature with the share scalar), every partial signature against every public-key share, and the recombination of key, public key and signature, asked in every ordered pair (a,b) as a,b,b,a. Distinct by (suite,t,n,subset,order,op).";
+pub const RULE: &str = "EXHAUSTIVE for n<=5 (quick) / n<=7 (thorough): every (t,n) with 2<=t<=n, every subset of every size of the n shares, in sorted, reversed (descending identifiers) and one seeded shuffled order. Sampled above: corners (2,255),(128,255),(254,255),(255,255) [thorough], (2,20),(10,20),(20,20),(3,64) and seeded random pairs, subsets of size t-1,t,t+1,n (for (2,255) also the 10 highest identifiers, the 21 lowest and 9 around 128). Per split (keys from E and random; split and split_with_rng): SecretKey::combine, PublicKey::from_shares, Signature::from_shares for Basic and PoP, both groups, messages from the length classes. >=t distinct shares must give the whole key / public key / byte-identical whole-key signature; <t shares must not (sizes 0,1 must be Err); each partial signature must verify against its own public-key share and against no other participant's (full i x j matrix for n<=7); the reference's own Lagrange interpolation over the share BYTES must give the same scalar / points (independent of vsss-rs). Error catalogue: [], [s], [s,s], [s,s'] with equal identifier, identifier forced to 0, Basic+PoP mixed, MessageAugmentation share signing, (t,n) in {(0,0),(1,1),(1,3),(3,2),(2,256),(256,256),(2,300),(0,5)}. History clusters (2 quick / 8 thorough per group): for one 2-of-3 split every participant's partial signature under Basic and ProofOfPossession (answer: the reference's signature with the share scalar), every partial signature against every public-key share, and the recombination of key, public key and signature, asked in every ordered pair (a,b) as a,b,b,a. Distinct by (suite,t,n,subset,order,op).";
 
 pub fn run(ctx: &mut Ctx) {
     for_both!(run_suite, ctx);
@@ -185,6 +185,13 @@ fn one_split<C: Suite>(ctx: &mut Ctx, g: u64, t: usize, nn: usize, exhaustive: b
         }
         v.push(vec![]);
         v.push(vec![0]);
+        // many shares with large identifiers (products of identifiers beyond 64 bits), many small
+        // ones, a run around 128
+        if nn >= 255 && t <= 9 {
+            v.push((nn - 10..nn).collect());
+            v.push((0..21).collect());
+            v.push((124..133).collect());
+        }
         v
     };
     for sub in subsets {
@@ -194,6 +201,11 @@ fn one_split<C: Suite>(ctx: &mut Ctx, g: u64, t: usize, nn: usize, exhaustive: b
             gen::shuffle(&mut sh, &mut rng);
             if sh != sub {
                 orders.push(sh);
+            }
+            let mut rev = sub.clone();
+            rev.reverse();
+            if !orders.contains(&rev) {
+                orders.push(rev); // descending identifiers
             }
         }
         for ord in orders {
